@@ -1,6 +1,6 @@
 (* Property C10 — wait() is a barrier and always returns.
    Only statements here; proofs are in CacheInv.v and CacheFifo.v. *)
-From StrettoModel Require Import Base Metrics Sketch Bloom TinyLFU Policy Ttl Store Cache CacheProofs CacheInv CacheFifo CacheClearLive CacheBarrier.
+From StrettoModel Require Import Base Metrics Sketch Bloom TinyLFU Policy Ttl Store Cache CacheProofs CacheInv CacheFifo CacheClearLive CacheBarrier PolicyProofs CacheNoPanic CacheProgress.
 Open Scope N_scope.
 
 (* In every reachable state — every history, every interleaving of clients, processor and policy
@@ -144,3 +144,25 @@ Theorem C10_remove_never_stuck :
   (s_pc st <> PExited /\ c_buf_cap c <= N.of_nat (length (s_buf st))).
 Proof. exact remove_never_stuck. Qed.
 Print Assumptions C10_remove_never_stuck.
+
+(* ---- progress of the processor (proofs in PolicyLive.v, CacheProgress.v) ----
+   "wait() always returns": a waiter is never stranded (C10_wait_never_stuck: its marker is ahead of
+   a live processor), and the processor can always move on — at its loop head it can take the head
+   item, whatever it is and whatever the policy holds (for a New item the admission decision comes
+   to an end under the canonical legal choice of eviction samples), and in the middle of an item, a
+   clear or a sweep it is never blocked.  What remains an assumption is only that select! eventually
+   takes the item arm (weak fairness of crossbeam / futures). *)
+Theorem C10_processor_can_take_the_head_item :
+  forall c mc t now st it r,
+  reach c (cinit c mc t now) st -> s_pc st = PIdle -> s_buf st = it :: r ->
+  exists h st' o, h_arm h = Some ArmItem /\ proc_step c st h = StepOk st' o /\ s_buf st' = r.
+Proof. exact reachable_processor_can_take_the_head_item. Qed.
+Print Assumptions C10_processor_can_take_the_head_item.
+
+Theorem C10_processor_never_blocks_mid_item :
+  forall c st,
+  NP st -> SO st -> s_pc st <> PIdle -> s_pc st <> PExited ->
+  N.of_nat (length (s_start st)) <= Consts.NUM_TO_KEEP ->
+  exists st' o, proc_step c st (mid_hint (s_pc st)) = StepOk st' o.
+Proof. exact processor_never_blocks_mid_item. Qed.
+Print Assumptions C10_processor_never_blocks_mid_item.
